@@ -102,6 +102,7 @@ ENTRIES = ["readfrom", "frombuffer", "fromunsafe", "unmarshal", "base64", "readf
 def _ser(g, scale):
     """C05: round trips through every entry point, chunked readers, trailing bytes, reused receivers, failing writers"""
     r = g.r
+    _ser_scale_episodes(g)
     for it in range(int(40 * scale)):
         x = g.fresh()
         nk = r.choice([0, 1, 2, 3, 4, 5, 9, 20]) if it > 2 else [0, 3, 4][it]
@@ -140,6 +141,39 @@ def _ser(g, scale):
         g.emit("rdsplit %s" % x)
         g.emit("trunc %s %s" % (x, r.choice(["readfrom", "frombuffer", "fromunsafe", "unmarshal", "base64"])))
         g.emit("dig %s" % x)
+
+
+def _ser_scale_episodes(g):
+    """fixed: several LARGE headers written one after the other in one process (hundreds of chunks, run chunks at different
+    positions each time, then the first one again), and decodes into receivers that were grown chunk by chunk"""
+    r = g.r
+    big = []
+    for j in range(3):
+        x = g.fresh("h")
+        n = r.choice([520, 600, 777, 1100])
+        g.emit("new %s" % x)
+        g.emit("addstride %s %d 65536 %d" % (x, 65536 * r.choice([0, 3, 100]) + 5, n))
+        for k in r.sample(range(n), 6):
+            g.emit("addr %s %d %d" % (x, (k + 3 * (j % 2)) * 65536 + 100, (k + 3 * (j % 2)) * 65536 + 100 + r.choice([300, 5000])))
+        g.emit("opt %s" % x)
+        big.append(x)
+    for x in big + [big[0], big[2], big[1]]:
+        g.emit("ser %s" % x)
+        y = g.fresh()
+        g.emit("rd %s %s %s" % (y, r.choice(ENTRIES), x))
+        g.count("ser:large-header")
+    for n0 in (45, 100, 200):
+        for cnt in r.sample([n0 + 1, 64, 65, 70, 71, 72, 128, 129, 140, 143, 144, 256, 257, 300, 303, 304], 3):
+            x, y = g.fresh("c"), g.fresh("u")
+            g.emit("new %s" % x)
+            g.emit("addstride %s %d 65536 %d" % (x, r.choice([1, 65536 * 7]), cnt))
+            g.emit("new %s" % y)
+            g.emit("addstride %s %d 65536 %d" % (y, r.choice([0, 9]), n0))
+            if r.random() < 0.4:
+                g.emit("clear %s" % y)
+            g.emit("rd %s %s %s reuse" % (y, r.choice(ENTRIES), x))
+            g.emit("card %s" % y)
+            g.count("ser:grown-receiver")
 
 
 @suite("serall")
